@@ -110,6 +110,9 @@ def run(tier):
         if r is not None:
             ev.add_tlc(r, "Emit_Corrupt (catalogue enumeration)")
         H.model_check(ev, tier, work)
+        # the in-memory containers the passes rely on (ea_refcount, icount, dblist, badblocks, region): spec/Cont*.tla
+        import c01_containers
+        ncont = c01_containers.run(b, ev, vd, tier, work, random.Random(seed() * 7919 + 5))
         pool = mp.Pool(H.JOBS, initializer=H._init, initargs=(b, basedir, work))
         try:
             cases, ustats = H.select(tier, U, profiles, pool, rng, quick_n=QUICK_N, quick_pairs=QUICK_PAIRS, all_stale=True)
@@ -127,7 +130,7 @@ def run(tier):
             die_broken("TLC failed on Trace_Tools: %s" % res["broken"][0])
         ev.cov["states"] += res["distinct"]; ev.cov["transitions"] += res["generated"]
         ev.cov["traces_validated_against_impl"] = len(done)
-        ev.cov["evaluations"] = len(done)
+        ev.cov["evaluations"] = len(done) + ncont
         st = dict(claimed_success=0, claimed_and_fixed=0, not_claimed=0, undamaged=0, killed_or_timeout=0, not_converged=0)
         for i, x in enumerate(done):
             m = x["meta"]
@@ -186,6 +189,9 @@ def run(tier):
 
 def replay(path):
     d = json.load(open(path))
+    if str(d.get("key", "")).startswith("cont:"):
+        import c01_containers
+        return c01_containers.replay(path)
     rp = d.get("replay", d)
     b = build.build()
     basedir, info = mkbase.base_images(b)
